@@ -50,6 +50,25 @@ fn main() {
             let a = args[1].clone();
             let _ = run::on_runner_thread(move || orch::runplan(&a));
         }
+        "showplan" => {
+            // full trace of the (minimised) plan stored in a replay file
+            let a = args[1].clone();
+            let _ = run::on_runner_thread(move || {
+                let text = std::fs::read_to_string(&a).expect("read replay file");
+                let v: serde_json::Value = serde_json::from_str(&text).expect("parse");
+                let plan: plan::Plan = serde_json::from_value(v.get("plan").cloned().unwrap_or(v.clone())).expect("plan");
+                for (i, a) in plan.actions.iter().enumerate() {
+                    println!("A{i}: {:?}", a);
+                }
+                let out = orch::run_any(&plan, true);
+                for (i, e) in out.trace.unwrap().iter().enumerate() {
+                    println!("{i}: {:?}", e);
+                }
+                for v in out.violations.iter() {
+                    println!("VIOLATION {} {} at {}: {}", v.property, v.rule, v.at, v.detail);
+                }
+            });
+        }
         "show" => {
             let prop = &args[1];
             let seed: u64 = args[2].parse().unwrap();
